@@ -40,8 +40,10 @@ class CallGraph:
         for f in prog.fns.values():
             if f.impl_trait and f.kind == "AssocFn":
                 self.trait_methods.setdefault((f.impl_trait, f.name), []).append(f.key)
+        self.inst_def = {}    # instance node -> key of the generic definition it instantiates
         for f in prog.real_fns():
             self._scan(f)
+        self._scan_instances()
 
     def _add(self, a, b, kind, bb):
         self.edges.setdefault(a, {}).setdefault(b, []).append((kind, bb))
@@ -65,7 +67,11 @@ class CallGraph:
                     self.ext_calls.setdefault(f.key, []).append(("<indirect>", bi))
                 else:
                     r = c.get("resolved")
-                    if r and r.get("local") and r["path"] in fns:
+                    if r and r.get("local") and r.get("instance") and r["instance"] in self.prog.instances and r["path"] in fns:
+                        # monomorphic instance of a crate-local generic / default method: its own node
+                        self.inst_def[r["instance"]] = r["path"]
+                        self._add(f.key, r["instance"], "call", bi)
+                    elif r and r.get("local") and r["path"] in fns:
                         self._add(f.key, r["path"], "call", bi)
                     elif c.get("local") and c.get("trait") in self.prog.traits and not (r and r.get("local")):
                         for tgt in self.cha_targets(c["trait"], c["name"]):
@@ -93,6 +99,34 @@ class CallGraph:
                 if s["k"] == "assign" and s["rv"]["k"] == "aggr" and s["rv"].get("kind") == "closure":
                     if s["rv"]["closure"] in fns:
                         self._add(f.key, s["rv"]["closure"], "closure", bi)
+
+    def _scan_instances(self):
+        fns = self.prog.fns
+        for key, inst in self.prog.instances.items():
+            self.inst_def.setdefault(key, inst["def"])
+            for bbs, c in inst.get("calls", {}).items():
+                bb = int(bbs)
+                if c.get("instance") and c["instance"] in self.prog.instances:
+                    self.inst_def.setdefault(c["instance"], c.get("rpath"))
+                    self._add(key, c["instance"], "call", bb)
+                elif c.get("rlocal") and c.get("rpath") in fns:
+                    self._add(key, c["rpath"], "call", bb)
+                elif "rpath" not in c and c.get("path"):
+                    tr, _, name = c["path"].rpartition("::")
+                    if tr in self.prog.traits:
+                        for tgt in self.cha_targets(tr, name):
+                            self._add(key, tgt, "cha", bb)
+            for c in inst.get("fnrefs", []):
+                if "closure" in c and c["closure"] in fns:
+                    self._add(key, c["closure"], "closure", -1)
+                elif c.get("instance") and c["instance"] in self.prog.instances:
+                    self._add(key, c["instance"], "fnref", -1)
+                elif c.get("rlocal") and c.get("rpath") in fns:
+                    self._add(key, c["rpath"], "fnref", -1)
+
+    def def_of(self, node):
+        """key in prog.fns of the body a node executes"""
+        return self.inst_def.get(node, node)
 
     def succ(self, a):
         return list(self.edges.get(a, {}).keys())
@@ -129,7 +163,7 @@ class CallGraph:
 
     def sccs(self, nodes=None):
         """Tarjan; returns list of SCCs (lists) that are non-trivial (size>1 or self-loop)"""
-        nodes = set(nodes) if nodes is not None else set(self.prog.fns.keys())
+        nodes = set(nodes) if nodes is not None else (set(self.prog.fns.keys()) | set(self.inst_def))
         index = {}
         low = {}
         onst = set()
